@@ -12,6 +12,11 @@ CHECKS = {
         technique="deterministic simulation with fault injection: seeded command sequences against simulated SG_IO/iSCSI bindings with injected status/sense/ioctl faults; per-command oracle from the fault delivered",
         text="Seeded search over command sequences with status (all 256 bytes), sense and ioctl faults injected inside commands on both simulated transports, through direct execute and every facade method, raw sense on/off; the status x transport x path x raw sub-space is enumerated completely in the thorough tier. Evidence, not proof: sequences are sampled.",
         note="Trusts the stub bindings' contract (DESIGN 4.3) and the independent t10 sense decoder; on SG_IO a non-CC failure status is only required to raise some exception."),
+    "C08": dict(
+        category="fault_enumeration", design_ref="DESIGN.md 5/C08",
+        technique="deterministic simulation with fault injection: CHECK CONDITION faults whose sense payloads sweep the response-code x key x ASC/ASCQ x length space, delivered through the simulated SG_IO/iSCSI bindings; independent SPC sense decoder as oracle",
+        text="Every payload is delivered as the sense of an injected CHECK CONDITION on a live simulated device and the resulting error is constructed, str()ed, print()ed and its key/ASC/ASCQ compared with an independent SPC decoder. The thorough tier enumerates all 65536 ASC/ASCQ pairs x 16 keys x 4 formats (4.2M payloads) and adds seeded payloads of every length 1-252; quick enumerates all pairs for one key per format.",
+        note="Search dimension is the fault payload, not a schedule (stated in DESIGN 2). T10 wording is demanded only for 41 well-known codes; sgio stub truncates sense to the 32 bytes the library requests."),
 }
 
 NOT_APPLICABLE = {
